@@ -135,6 +135,7 @@ def step (s : Abs) (op : Op) : Option (Abs × Option Int) :=
   | .aappendsub v i n =>
     if v < 2 then liftA s v (if i + n ≤ (s.getA v).length then const (s.getA v ++ ((s.getA v).drop i).take n) else none)
     else none
+  | .aresized v n => if v < 2 then liftA s v (resize (s.getA v) n 0) else none
   | .aeq v w => if v < 2 ∧ w < 2 then some (s, some (if s.getA v = s.getA w then 1 else 0)) else none
 
 /-- run a history on the reference sequences (operations whose precondition fails are skipped) -/
